@@ -78,6 +78,14 @@ func c17Keys() []c17Key {
 		k := ecKeyOn(c.c, "c17-"+c.n)
 		ks = append(ks, c17Key{Name: "ecdsa-" + c.n, Pub: &k.PublicKey, Priv: k, Family: "ec", ECDHOK: c.e})
 	}
+	// the points with x = 0 (and the smallest x > 0 that is on the curve): ordinary members of the family
+	for _, cv := range []elliptic.Curve{elliptic.P256(), elliptic.P384(), elliptic.P521()} {
+		for _, odd := range []bool{false, true} {
+			if y := c14YFor(cv, new(big.Int), odd); y != nil {
+				ks = append(ks, c17Key{Name: fmt.Sprintf("ecdsa-%s-x-zero-y-odd-%v", cv.Params().Name, odd), Pub: &ecdsa.PublicKey{Curve: cv, X: new(big.Int), Y: y}, Family: "ec", ECDHOK: true})
+			}
+		}
+	}
 	good := ecKeyOn(elliptic.P256(), "c17-offcurve")
 	off := &ecdsa.PublicKey{Curve: elliptic.P256(), X: new(big.Int).Set(good.X), Y: new(big.Int).Add(good.Y, big.NewInt(1))}
 	ks = append(ks, c17Key{Name: "ecdsa-off-curve", Pub: off, Family: "ec"})
